@@ -39,9 +39,10 @@ ANCHORS = ['recursiveloader:ManifestRecursiveLoader.update_entries_for_directory
 REQUIRED = ['recursiveloader:ManifestRecursiveLoader.save_manifests',
             'updates_completed', 'postconditions_checked', 'fresh_verifications',
             'cli_updates', 'cli_history_steps', 'cli_histories_verified',
-            'same_loader_rounds']
+            'same_loader_rounds', 'profile_updates_completed']
 ASSUMPTIONS = ['nothing is claimed when update or save raised (C10 / C18 watch that)',
-               'default profile only (profiles: C19)']
+               'generated histories use the default profile; the ebuild profiles are '
+               'driven on the adopt layouts here and on whole repositories in C19']
 
 PRIOR = (gmutate.FS_CLASSES * 2 + ['m-digest', 'm-size', 'm-drop', 'm-ghost',
                                    'm-conflict', 'm-disjoint-wrong', 'm-compatible-dup',
@@ -49,7 +50,9 @@ PRIOR = (gmutate.FS_CLASSES * 2 + ['m-digest', 'm-size', 'm-drop', 'm-ghost',
                                    'm-dup-manifest-entry', 'm-dup-manifest-entry',
                                    'm-upper-digest', 'm-digest-shared']
          + gmutate.UNREG_CLASSES * 2 + ['m-entry-for-dir', 'm-misc-dup',
-                                        'm-manifest-data-twin'])
+                                        'm-manifest-data-twin',
+                                        'm-manifest-as-data-only',
+                                        'm-manifest-as-data-only'])
 EDITS = ['content', 'size', 'delete', 'stray', 'stray', 'stray-manifest-name', 'retype',
          'hidden-content', 'hidden-delete']
 N = {'quick': 1500, 'thorough': 60000}
@@ -66,6 +69,7 @@ def units(tier, seed):
         u.append({'k': 'big', 'i': 100000 + i, 'n': 2})
     for i in range(10 if tier == 'quick' else 300):
         u.append({'k': 'cli-hist', 'i': i, 'n': 4})
+    u.append({'k': 'adopt'})
     return u
 
 
@@ -562,9 +566,106 @@ def run_cli_history(u, ctx):
         exec_cli_history(ctx, case)
 
 
+def adopted_data_listed(mans0, mans1):
+    """Directories in which the previous state had a Manifest-named file listed by
+    non-MANIFEST entries only (a plain file as far as verification is concerned)
+    and no MANIFEST-referenced Manifest, and which have a MANIFEST-referenced
+    Manifest now (known finding D33)."""
+    from vf.checks import c10
+
+    def referenced_dirs(mans):
+        return {os.path.dirname(mp) for mp in mans
+                if 'MANIFEST' in c10.listed_as(mans, mp)}
+    before, after = referenced_dirs(mans0), referenced_dirs(mans1)
+    out = set()
+    for mp in mans0:
+        t0 = c10.listed_as(mans0, mp)
+        d = os.path.dirname(mp)
+        if t0 and 'MANIFEST' not in t0 and d not in before and d in after:
+            out.add(d)
+    return out
+
+
+def exec_adopt(ctx, case):
+    """Profiles (C19 covers repositories created from scratch): a package directory
+    in which the ebuild profiles want a Manifest already holds one, carrying DIST and
+    IGNORE lines and a stale or exact entry, known to the tree by a MANIFEST entry, by
+    a plain DATA/MISC entry or not at all; compressed or not."""
+    from gemato import cli as gcli
+    from vf.checks import c10
+    with common.Scratch('vf-c03a-') as d:
+        root = os.path.join(d, 't')
+        mname = c10.build_adopt_tree(root, case)
+        ctx.case(sig=('adopt', case['listed'], case['profile'], case['api'],
+                      case['stale'], mname), case=case, klass='adopt')
+        mans0 = c10.manifest_state(root)
+        argv = ['gemato', 'update', '-p', case['profile'], '--hashes', 'SHA256', root]
+        try:
+            if case['api'] == 'cli':
+                rc = gcli.main(argv)
+                if rc != 0:
+                    ctx.count('update_cli_rc:%s' % (rc,))
+                    return
+            else:
+                from gemato.profile import get_profile_by_name
+                from gemato.recursiveloader import ManifestRecursiveLoader
+                m = ManifestRecursiveLoader(os.path.join(root, 'Manifest'),
+                                            verify_openpgp=False, hashes=['SHA256'],
+                                            profile=get_profile_by_name(case['profile']))
+                m.update_entries_for_directory('')
+                m.save_manifests()
+        except SystemExit:
+            ctx.count('update_cli_rc:exit')
+            return
+        except Exception as exc:
+            ctx.count('update_raised:' + type(exc).__name__)
+            return
+        ctx.count('updates_completed')
+        ctx.count('profile_updates_completed')
+        findings = update_post.check(root, 'Manifest', '', ['SHA256'])
+        ctx.count('postconditions_checked')
+        mans1 = c10.manifest_state(root)
+        adopted = adopted_data_listed(mans0, mans1)
+        detail = {'findings': findings[:8], 'adopted': sorted(adopted)}
+        done = set()
+        for f in findings:
+            kind, path, det = f
+            lb = kind
+            if any(mtext.comp_prefix(path, a) for a in adopted):
+                lb = 'profile-adopts-data-listed-manifest:' + kind
+            if lb in done:
+                continue
+            done.add(lb)
+            ctx.violation('post:' + lb, 'after update -p %s completed without error: '
+                          '%s %r %r' % ((case['profile'],) + tuple(f)), case, detail)
+        if findings:
+            return
+        fk, fv = fresh_verify(root, '')
+        ctx.count('fresh_verifications')
+        if fk == 'exc' or fv is not True:
+            ctx.violation('fresh-verify-fails:' + (adapt.exc_key(fv) if fk == 'exc'
+                                                   else 'False'),
+                          'a fresh verification after a successful update -p %s fails: %r'
+                          % (case['profile'], fv), case, detail)
+
+
+def run_adopt(ctx):
+    for listed in ('manifest', 'data', 'misc', 'none'):
+        for profile in ('ebuild', 'old-ebuild'):
+            for api in ('cli', 'lib'):
+                for stale in (False, True):
+                    for name in ('Manifest', 'Manifest.gz', 'Manifest.xz',
+                                 'Manifest.bz2'):
+                        exec_adopt(ctx, {'kind': 'adopt', 'listed': listed,
+                                         'profile': profile, 'api': api,
+                                         'stale': stale, 'name': name})
+
+
 def run_unit(u, ctx):
     if u['k'] == 'cli-hist':
         return run_cli_history(u, ctx)
+    if u['k'] == 'adopt':
+        return run_adopt(ctx)
     for j in range(u['n']):
         rng = common.rng_for(ctx.seed, ID, u['i'], j)
         with common.Scratch('vf-c03-') as d:
@@ -585,6 +686,8 @@ def run_unit(u, ctx):
 def replay(case, ctx):
     if case.get('kind') == 'cli-hist':
         return exec_cli_history(ctx, case)
+    if case.get('kind') == 'adopt':
+        return exec_adopt(ctx, case)
     with common.Scratch('vf-c03-') as d:
         root = os.path.join(d, 't')
         scenario.rebuild(root, case)
